@@ -4,6 +4,7 @@ package merkle
 
 import (
 	"bytes"
+	"math/bits"
 
 	vp "github.com/tendermint/tendermint/internal/verifvp"
 )
@@ -48,7 +49,22 @@ func vpC10Sound(n, itemLen int, symTotal bool) {
 		return
 	}
 	if proof.Total != int64(n) {
-		return // the root alone does not commit to the leaf count; callers must bind Total (see AddPart)
+		// the root alone does not commit to the leaf count (callers bind Total, see AddPart), but an
+		// accepted proof must still walk, under its own (index, total), the same left/right turns as
+		// the path of a real position of the n-leaf tree, and carry the item of that position
+		vp.Reach("accepted-with-other-total?")
+		turns, ok := vpTurns(proof.Index, proof.Total, aunts)
+		vp.Assert(ok, "C10.verify.stated-index-and-total-describe-a-leaf-at-the-depth-of-the-path")
+		found := false
+		for i := 0; i < n; i++ {
+			t, ok2 := vpTurns(int64(i), int64(n), aunts)
+			if ok2 && t == turns {
+				found = true
+				vp.Assert(bytes.Equal(leaf, items[i]), "C10.verify.leaf-is-the-item-whose-path-has-the-stated-shape")
+			}
+		}
+		vp.Assert(found, "C10.verify.stated-(index,total)-has-the-shape-of-a-real-position")
+		return
 	}
 	vp.Reach("accepted")
 	vp.Assert(proof.Index >= 0 && proof.Index < int64(n), "C10.verify.index-in-range")
@@ -133,3 +149,29 @@ func vpC10SoundPath(n int) {
 func VP_C10_SoundPath_n2() { vpC10SoundPath(2) }
 func VP_C10_SoundPath_n3() { vpC10SoundPath(3) }
 func VP_C10_SoundPath_n4() { vpC10SoundPath(4) }
+
+// vpTurns: the left/right turns (root first, 1 = right, with a leading 1 marker) from the root to leaf
+// `index` of a tree of `total` leaves under the split rule of the specification (largest power of two
+// strictly less than the size), written independently of tree.go; ok=false unless the leaf sits at
+// exactly `depth`.
+func vpTurns(index, total int64, depth int) (uint32, bool) {
+	if total < 1 || index < 0 || index >= total {
+		return 0, false
+	}
+	turns := uint32(1)
+	for d := 0; d < depth; d++ {
+		if total == 1 {
+			return 0, false
+		}
+		k := int64(1) << uint(bits.Len64(uint64(total-1))-1)
+		turns <<= 1
+		if index < k {
+			total = k
+		} else {
+			turns |= 1
+			index -= k
+			total -= k
+		}
+	}
+	return turns, total == 1
+}
